@@ -41,7 +41,7 @@ static Weights profile_weights(const std::string &prop) {
     else if (prop == "C09") { scale(t, {P::O_FD_REG, P::O_FD_DEREG, P::O_TMR_REG, P::O_TMR_DEREG, P::O_SUB, P::O_UNSUB}, 3); }
     else if (prop == "C18") {
         t = {{P::O_SET_TB, 4}, {P::O_TELL, 26}, {P::O_PUB, 6}, {P::O_BCAST, 2}, {P::O_SUB, 4}, {P::O_UNSUB, 1}, {P::O_BECOME, 2}, {P::O_UNBECOME, 2}, {P::O_BATCH_SIZE, 1},
-             {P::O_SLEEP, 7}, {P::O_DISPATCH, 12}, {P::O_DRAIN, 1}, {P::O_STOP, 0.5}, {P::O_START, 1}, {P::O_TMR_REG, 1}, {P::O_TMR_DEREG, 0.3}, {P::O_QUIT, 0.3}, {P::O_REG, 0.5}, {P::O_DEREG, 0.3}};
+             {P::O_SLEEP, 7}, {P::O_DISPATCH, 12}, {P::O_DRAIN, 1}, {P::O_STOP, 0.5}, {P::O_START, 1}, {P::O_PAUSE, 2}, {P::O_RESUME, 3}, {P::O_TMR_REG, 1}, {P::O_TMR_DEREG, 0.3}, {P::O_QUIT, 0.3}, {P::O_REG, 0.5}, {P::O_DEREG, 0.3}};
         s = {{P::O_TELL, 4}, {P::O_PUB, 2}, {P::O_SUB, 1}, {P::O_BECOME, 1}, {P::O_UNBECOME, 1}, {P::O_STASH, 1}, {P::O_SET_TB, 0.5}};
     }
     if (prop == "C09reg") {
@@ -138,7 +138,7 @@ static rc::Gen<std::vector<Op>> gen_phrase(const Weights &w, int nmods, const st
         [](std::tuple<int, int, long, long, long, long, long> t) {
             int s = std::get<0>(t), r = std::get<1>(t);
             std::vector<Op> v{mkop(P::O_SET_TB, s, 0, std::get<2>(t), std::get<3>(t))};
-            for (long i = 0; i < std::get<4>(t); i++) v.push_back(mkop(P::O_TELL, s, r));
+            for (long i = 0; i < std::get<4>(t); i++) { v.push_back(mkop(P::O_TELL, s, r)); if (std::get<5>(t) % 3 == 0 && i % 2 == 1) { v.push_back(mkop(P::O_PAUSE, s)); v.push_back(mkop(P::O_RESUME, s)); } }
             v.push_back(mkop(P::O_SLEEP, 0, 0, std::get<5>(t))); v.push_back(mkop(P::O_DISPATCH, 0, 0, std::get<6>(t)));
             for (long i = 0; i < std::get<4>(t) / 2 + 1; i++) v.push_back(mkop(P::O_TELL, s, r));
             return v; });
@@ -149,6 +149,18 @@ static rc::Gen<std::vector<Op>> gen_phrase(const Weights &w, int nmods, const st
         for (size_t i = 0; i < keys.size(); i++) v.push_back(mkop(dirs[i % dirs.size()] ? P::O_SRC_DEREG : P::O_SRC_REG, std::get<0>(t), 0, std::get<1>(t), keys[i]));
         return v; });
     if (prop == "C09reg") return gens::weighted<std::vector<Op>>({{40, single}, {60, regburst}});
+    // a recipient whose pipe is full while others are not: sends that reach it and others in one call
+    auto overflow = gen::map(gen::tuple(slot, slot, slot, gens::weighted_values<long>({{2, 8191}, {2, 8192}, {2, 8193}, {1, 9000}}), gens::range<long>(0, 4), gens::range<long>(1, 4)), [](std::tuple<int, int, int, long, long, long> t) {
+        std::vector<Op> v{mkop(P::O_FLOOD, std::get<0>(t), std::get<1>(t), std::get<3>(t))};
+        switch (std::get<4>(t)) {
+        case 0: v.push_back(mkop(P::O_BCAST, std::get<2>(t), 0, 0)); break;
+        case 1: v.push_back(mkop(P::O_BCAST, std::get<2>(t), 0, 1)); break;
+        case 2: v.push_back(mkop(P::O_SUB, std::get<1>(t), 0, 0, 0)); v.push_back(mkop(P::O_SUB, std::get<2>(t), 0, 0, 0)); v.push_back(mkop(P::O_PUB, std::get<0>(t), 0, 0, 0)); break;
+        default: v.push_back(mkop(P::O_TELL, std::get<2>(t), std::get<1>(t), 1)); break;
+        }
+        v.push_back(mkop(P::O_DISPATCH, 0, 0, std::get<5>(t)));
+        return v; });
+    if (prop == "C02" || prop == "C04") return gens::weighted<std::vector<Op>>({{97, gens::weighted<std::vector<Op>>({{45, single}, {12, deliver}, {22, pubdeliver}, {6, burst}, {6, loopcycle}, {2, become_cycle}, {2, stash_cycle}, {2, batch}, {2, fdcycle}})}, {3, overflow}});
     std::map<std::string, std::vector<size_t>> tab = {
         //            single deliver pub burst loop become stash batch tb fd
         {"C01", {70, 8, 6, 1, 8, 2, 1, 1, 0, 1}}, {"C02", {45, 12, 22, 6, 6, 2, 1, 2, 0, 1}}, {"C03", {45, 10, 8, 4, 8, 1, 1, 2, 0, 18}},
@@ -193,11 +205,15 @@ static rc::Gen<Prog> gen_prog(const rt::Args &args) {
                          return std::vector<std::vector<Script>>{std::get<0>(t), std::get<1>(t), std::get<2>(t), std::get<3>(t)}; }));
         auto hooks = gens::vec<int>(nmods, nmods, gens::weighted_values<int>({{2, 0}, {2, 2}, {2, 6}, {2, 7}, {1, 1}, {1, 3}, {1, 4}, {1, 5}}));
         // prelude: context + most modules registered, some started by hand
-        auto prelude = gen::tuple(gens::weighted_values<long>({{5, 0}, {3, 1}, {1, 2}, {1, 4}, {1, 5}}), gens::vec<int>(nmods, nmods, gens::weighted_values<int>({{1, 0}, {5, 1}, {3, 2}})));
+        // module flags used by the prelude registrations (harness encoding: 1 replace, 2 persist, 4 userdata autofree, 8 deny ctx, 16 deny pub, 32 deny sub, 64 name dup)
+        auto preflags = (prop == "C15") ? gens::weighted_values<int>({{4, 0}, {3, 1}, {2, 2}, {4, 8}, {2, 16}, {2, 32}, {1, 9}, {1, 24}, {1, 3}, {1, 4}, {1, 64}})
+                      : (prop == "C19" || prop == "C07" || prop == "C01") ? gens::weighted_values<int>({{10, 0}, {3, 1}, {1, 2}, {1, 4}, {1, 64}, {1, 8}})
+                      : gens::weighted_values<int>({{14, 0}, {1, 1}, {1, 2}, {1, 4}, {1, 64}, {1, 8}, {1, 16}, {1, 32}});
+        auto prelude = gen::tuple(gens::weighted_values<long>({{5, 0}, {3, 1}, {1, 2}, {1, 4}, {1, 5}}), gens::vec<int>(nmods, nmods, gens::weighted_values<int>({{1, 0}, {5, 1}, {3, 2}})), gens::vec<int>(nmods, nmods, preflags));
         auto body = gen::map(gen::scale(0.25, gen::container<std::vector<std::vector<Op>>>(gen_phrase(w, nmods, prop))), [](std::vector<std::vector<Op>> ph) {
             std::vector<Op> v; for (auto &p : ph) for (auto &o : p) v.push_back(o);
             if (v.size() > 70) v.resize(70); return v; });
-        return gen::map(gen::tuple(scripts, hooks, prelude, body), [=](std::tuple<std::vector<std::vector<std::vector<Script>>>, std::vector<int>, std::tuple<long, std::vector<int>>, std::vector<Op>> t) {
+        return gen::map(gen::tuple(scripts, hooks, prelude, body), [=](std::tuple<std::vector<std::vector<std::vector<Script>>>, std::vector<int>, std::tuple<long, std::vector<int>, std::vector<int>>, std::vector<Op>> t) {
             Prog p; p.nmods = nmods; p.profile = registry ? "registry" : prop;
             for (int i = 0; i < nmods; i++) {
                 p.mods[i].hooks = std::get<1>(t)[i];
@@ -206,7 +222,7 @@ static rc::Gen<Prog> gen_prog(const rt::Args &args) {
             Op c; c.code = P::O_CTX_REG; c.a = std::get<0>(std::get<2>(t)); p.ops.push_back(c);
             auto &pre = std::get<1>(std::get<2>(t));
             for (int i = 0; i < nmods; i++) {
-                if (pre[i] >= 1) { Op r; r.code = P::O_REG; r.s = i; r.a = 0; r.b = (i % 2); p.ops.push_back(r); }
+                if (pre[i] >= 1) { Op r; r.code = P::O_REG; r.s = i; r.a = std::get<2>(std::get<2>(t))[i]; r.b = (i % 2); p.ops.push_back(r); }
                 if (pre[i] >= 2 && !registry) { Op s; s.code = P::O_START; s.s = i; p.ops.push_back(s); }
             }
             if (!registry && std::get<0>(std::get<2>(t)) != 5) { Op d; d.code = P::O_DISPATCH; d.a = 1; p.ops.push_back(d); } // usually start the loop right away
